@@ -3,3 +3,5 @@ import GlotaranModel.C19
 import GlotaranModel.LinAlg
 import GlotaranModel.C02
 import GlotaranModel.C03
+import GlotaranModel.Generated.C15
+import GlotaranModel.C15
